@@ -41,7 +41,7 @@ type netParams struct {
 	Narrow   bool    `json:"narrow,omitempty"`    // fetch: only the first branch's refspec is given; other branches and tags exist on the remote
 	TagSrc   string  `json:"tag_src,omitempty"`   // push: how the tag's source is spelled: "" (refs/tags/x) | short (x:refs/tags/x) | bare (x) | head (refs/heads/b0:refs/tags/x)
 	FailAt   int     `json:"fail_at,omitempty"`   // C09: a first attempt whose FailAt-th receiver-side store write fails, then the judged attempt
-	TagRel   string  `json:"tag_rel,omitempty"`  // relation forced on the tag: clobber = the receiver's tag sits on an ancestor of the sender's
+	TagRel   string  `json:"tag_rel,omitempty"`   // relation forced on the tag: clobber = the receiver's tag sits on an ancestor of the sender's
 	FailFrom bool    `json:"fail_from,omitempty"` // every write from FailAt on fails (disk full) instead of one
 }
 
